@@ -392,6 +392,10 @@ Proof.
   cbn [ostep]. destruct (set_pop (get rs r)) as [[d k]|e]; reflexivity.
 Qed.
 
+(* ... and so does a whole run *)
+Lemma steps_enc ops : forall rs, fold_left (fun rs o => fst (step rs o)) (map enc_op ops) rs = fold_left ostep ops rs.
+Proof. induction ops as [|o ops IH]; intros rs; [reflexivity|]. cbn [map fold_left]. rewrite step_enc. apply IH. Qed.
+
 (* ---- abstract semantics: one set of (version, address) pairs per register ---- *)
 Definition aset := Z -> Z -> Prop.
 Definition aempty : aset := fun _ _ => False.
